@@ -50,7 +50,8 @@ type c08Logger struct {
 	Caller  bool       `json:"caller"`
 	Stack   int        `json:"stack"` // AddStacktrace(level); 99 = off
 	Dev     bool       `json:"dev"`
-	Hook    string     `json:"hook"` // ""|"panic"|"fatal": a counting hook that returns
+	Hook    string     `json:"hook"`   // ""|"panic"|"fatal": a recording hook (c08Hook) that returns
+	HookDo  int        `json:"hookdo"` // what the hook does before it reads its entry: 0 nothing, 1 logs, 2 logs and yields
 	Fields  []encField `json:"fields"`
 	Name    string     `json:"name"`
 	Fail    bool       `json:"fail"` // the sink returns an error
@@ -136,9 +137,50 @@ func (s *c08Sink) contains(marker []byte) bool {
 	return len(marker) > 0 && bytes.Contains(s.buf, marker)
 }
 
-type c08Hook struct{ calls *int64 }
+// c08Hook is a CheckWriteHook (zap.WithPanicHook / WithFatalHook / CheckedEntry.After) that behaves like a crash reporter:
+// it first does other work — logs through an unrelated logger (which takes a CheckedEntry from the pool and puts it back)
+// and, when asked to, yields so that other goroutines log — and only THEN reads the *CheckedEntry it was handed and the
+// fields, and records what it saw.  What it records must describe the entry of its own log call.
+type c08Hook struct {
+	calls  *int64
+	before func()
+	rec    *c08Sink // nil: the reading is made but not recorded (hooks of the history)
+}
 
-func (h c08Hook) OnWrite(*zapcore.CheckedEntry, []zapcore.Field) { atomic.AddInt64(h.calls, 1) }
+func (h c08Hook) OnWrite(ce *zapcore.CheckedEntry, fields []zapcore.Field) {
+	atomic.AddInt64(h.calls, 1)
+	if h.before != nil {
+		h.before()
+	}
+	var b bytes.Buffer
+	fmt.Fprintf(&b, "%d|%s|%s|%d|%d|%v|%s:%d|%s|%q", int(ce.Level), ce.LoggerName, ce.Message, len(fields), ce.Time.UnixNano(),
+		ce.Caller.Defined, ce.Caller.File, ce.Caller.Line, ce.Caller.Function, ce.Stack)
+	for _, f := range fields {
+		fmt.Fprintf(&b, "|%s:%d", f.Key, f.Type)
+	}
+	b.WriteByte('\n')
+	if h.rec != nil {
+		_, _ = h.rec.Write(b.Bytes())
+	}
+}
+
+// c08HookBefore: what a hook does before it looks at its entry (mode 0: nothing; 1: logs; 2: logs and yields).
+func c08HookBefore(mode int, auxSink zapcore.WriteSyncer) func() {
+	if mode == 0 {
+		return nil
+	}
+	aux := zap.New(zapcore.NewCore(zapcore.NewJSONEncoder(zap.NewProductionEncoderConfig()), auxSink, zapcore.DebugLevel),
+		zap.WithClock(c08Clock{})).Named("audit")
+	return func() {
+		aux.Info("hook invoked, flushing", zap.Int("pending", 3))
+		if mode >= 2 {
+			for i := 0; i < 4; i++ {
+				runtime.Gosched()
+			}
+			aux.Warn("still flushing")
+		}
+	}
+}
 
 type c08Clock struct{}
 
@@ -181,7 +223,7 @@ func c08EncoderConfig() zapcore.EncoderConfig {
 	return c
 }
 
-func c08BuildLogger(l *c08Logger, sink, errOut zapcore.WriteSyncer, hookCalls *int64) *zap.Logger {
+func c08BuildLogger(l *c08Logger, sink, errOut zapcore.WriteSyncer, hk c08Hook) *zap.Logger {
 	var enc zapcore.Encoder
 	if l.Console {
 		enc = zapcore.NewConsoleEncoder(c08EncoderConfig())
@@ -200,9 +242,9 @@ func c08BuildLogger(l *c08Logger, sink, errOut zapcore.WriteSyncer, hookCalls *i
 	}
 	switch l.Hook {
 	case "panic":
-		opts = append(opts, zap.WithPanicHook(c08Hook{hookCalls}))
+		opts = append(opts, zap.WithPanicHook(hk))
 	case "fatal":
-		opts = append(opts, zap.WithFatalHook(c08Hook{hookCalls}))
+		opts = append(opts, zap.WithFatalHook(hk))
 	}
 	if len(l.Fields) > 0 {
 		opts = append(opts, zap.Fields(buildFields(l.Fields)...))
@@ -224,7 +266,7 @@ func c08Recurse(n int, f func()) {
 }
 
 // c08DoAct performs one logging action; a panic leaving the call is returned as text.
-func c08DoAct(lg *zap.Logger, l *c08Logger, a *c08Act) (panicMsg string) {
+func c08DoAct(lg *zap.Logger, l *c08Logger, a *c08Act, hk c08Hook) (panicMsg string) {
 	defer func() {
 		if e := recover(); e != nil {
 			panicMsg = "panic: " + fmt.Sprint(e)
@@ -250,6 +292,12 @@ func c08DoAct(lg *zap.Logger, l *c08Logger, a *c08Act) (panicMsg string) {
 		_ = lg.Check(lvl, msg) // a CheckedEntry that is never written never returns to the pool
 	case "checkwrite":
 		if ce := lg.Check(lvl, msg); ce != nil {
+			ce.Write(fs...)
+		}
+	case "checkafter":
+		// a hook installed on the CheckedEntry itself
+		if ce := lg.Check(lvl, msg); ce != nil {
+			ce = ce.After(ce.Entry, hk)
 			ce.Write(fs...)
 		}
 	case "sugar":
@@ -342,8 +390,9 @@ func (w *c08World) runHist(h *c08Hist) {
 		if h.Lg == nil || h.Act == nil {
 			return
 		}
-		lg := c08BuildLogger(h.Lg, w.sink(h.Lg.Fail), w.sink(false), &w.hookCalls)
-		_ = c08DoAct(lg, h.Lg, h.Act)
+		hk := c08Hook{calls: &w.hookCalls, before: c08HookBefore(h.Lg.HookDo, w.sink(false))}
+		lg := c08BuildLogger(h.Lg, w.sink(h.Lg.Fail), w.sink(false), hk)
+		_ = c08DoAct(lg, h.Lg, h.Act, hk)
 	}
 }
 
@@ -356,33 +405,36 @@ type c08Observation struct {
 	Panic   string `json:"-"`
 	PanicB  []byte // Panic for the trip through JSON (a panic text need not be valid UTF-8)
 	Hooks   int64  // calls of the observed logger's own hook
+	HookRec []byte // what that hook read from the *CheckedEntry and the fields it was handed
 	Foreign int64  // writes to sinks of the history while the call ran (seq only)
 	FHooks  int64  // calls of hooks of the history while the call ran (seq only)
 }
 
 func (o *c08Observation) text() string {
-	return fmt.Sprintf("line=%q writes=%d errout=%q panic=%q ownHooks=%d foreignWrites=%d foreignHooks=%d",
-		trunc2(o.Line), o.Writes, trunc2(o.ErrOut), o.Panic, o.Hooks, o.Foreign, o.FHooks)
+	return fmt.Sprintf("line=%q writes=%d errout=%q panic=%q ownHooks=%d hookRead=%q foreignWrites=%d foreignHooks=%d",
+		trunc2(o.Line), o.Writes, trunc2(o.ErrOut), o.Panic, o.Hooks, trunc2(o.HookRec), o.Foreign, o.FHooks)
 }
 
 func (o *c08Observation) same(b *c08Observation) bool {
 	return bytes.Equal(o.Line, b.Line) && o.Writes == b.Writes && bytes.Equal(o.ErrOut, b.ErrOut) && o.Panic == b.Panic &&
-		o.Hooks == b.Hooks && o.Foreign == b.Foreign && o.FHooks == b.FHooks
+		o.Hooks == b.Hooks && bytes.Equal(o.HookRec, b.HookRec) && o.Foreign == b.Foreign && o.FHooks == b.FHooks
 }
 
 type c08Observer struct {
-	obs    *c08Obs
-	w      *c08World
-	sink   *c08Sink
-	errOut *c08Sink
-	hooks  int64
-	core   zapcore.Core // prebuilt
-	lg     *zap.Logger  // prebuilt
-	seq    bool
+	obs     *c08Obs
+	w       *c08World
+	sink    *c08Sink
+	errOut  *c08Sink
+	hooks   int64
+	hookRec *c08Sink
+	hk      *c08Hook
+	core    zapcore.Core // prebuilt
+	lg      *zap.Logger  // prebuilt
+	seq     bool
 }
 
 func c08NewObserver(obs *c08Obs, w *c08World, seq bool) *c08Observer {
-	o := &c08Observer{obs: obs, w: w, sink: &c08Sink{}, errOut: &c08Sink{}, seq: seq}
+	o := &c08Observer{obs: obs, w: w, sink: &c08Sink{}, errOut: &c08Sink{}, hookRec: &c08Sink{}, seq: seq}
 	if obs.T == "log" && obs.Lg != nil {
 		o.sink.fail = obs.Lg.Fail
 	}
@@ -403,10 +455,22 @@ func c08NewObserver(obs *c08Obs, w *c08World, seq bool) *c08Observer {
 		case "enc":
 			o.core = c08EncCore(obs.Op, o.sink)
 		case "log":
-			o.lg = c08BuildLogger(obs.Lg, o.sink, o.errOut, &o.hooks)
+			o.lg = c08BuildLogger(obs.Lg, o.sink, o.errOut, o.hook())
 		}
 	}
 	return o
+}
+
+// hook is the observed logger's own hook: its "other work" goes through a logger of its own (not a sink of the history).
+func (o *c08Observer) hook() c08Hook {
+	if o.hk == nil {
+		do := 0
+		if o.obs.Lg != nil {
+			do = o.obs.Lg.HookDo
+		}
+		o.hk = &c08Hook{calls: &o.hooks, before: c08HookBefore(do, &c08Sink{}), rec: o.hookRec}
+	}
+	return *o.hk
 }
 
 // run makes the observed call once.  Every phase of a case calls it from the same statement, so caller annotations and
@@ -433,13 +497,14 @@ func (o *c08Observer) run() *c08Observation {
 	case "log":
 		lg := o.lg
 		if lg == nil {
-			lg = c08BuildLogger(o.obs.Lg, o.sink, o.errOut, &o.hooks)
+			lg = c08BuildLogger(o.obs.Lg, o.sink, o.errOut, o.hook())
 		}
-		res.Panic = c08DoAct(lg, o.obs.Lg, o.obs.Act)
+		res.Panic = c08DoAct(lg, o.obs.Lg, o.obs.Act, o.hook())
 	}
 	res.Line, res.Writes = o.sink.take()
 	res.ErrOut, _ = o.errOut.take()
 	res.Hooks = atomic.LoadInt64(&o.hooks) - own0
+	res.HookRec, _ = o.hookRec.take()
 	if o.seq {
 		res.Foreign = atomic.LoadInt64(&o.w.foreign) - f0
 		res.FHooks = atomic.LoadInt64(&o.w.hookCalls) - h0
@@ -579,6 +644,40 @@ func c08RunCase(op *c08Op) (out c08Outcome) {
 	return out
 }
 
+// c08HookExpect: does the observed call run the recording hook, and what must the hook read (as far as the inputs say)?
+func c08HookExpect(obs *c08Obs) (prefix []byte, fires bool) {
+	if obs.T != "log" || obs.Lg == nil || obs.Act == nil {
+		return nil, false
+	}
+	l, a := obs.Lg, obs.Act
+	level := 0
+	switch {
+	case a.A == "panic" && l.Hook == "panic":
+		level = int(zapcore.PanicLevel)
+	case a.A == "fatal" && l.Hook == "fatal":
+		level = int(zapcore.FatalLevel)
+	case a.A == "dpanic" && l.Dev && l.Hook == "panic":
+		level = int(zapcore.DPanicLevel)
+	case a.A == "checkafter":
+		level = a.Lvl
+	default:
+		return nil, false
+	}
+	return []byte(fmt.Sprintf("%d|%s|%s|%d|", level, unhx(l.Name), unhx(a.Msg), len(a.Fields))), true
+}
+
+// c08PanicExpect: the built-in WriteThenPanic hook does panic(ce.Message)
+func c08PanicExpect(obs *c08Obs) (string, bool) {
+	if obs.T != "log" || obs.Lg == nil || obs.Act == nil {
+		return "", false
+	}
+	l, a := obs.Lg, obs.Act
+	if (a.A == "panic" || (a.A == "dpanic" && l.Dev)) && l.Hook != "panic" {
+		return "panic: " + string(unhx(a.Msg)), true
+	}
+	return "", false
+}
+
 func c08ObsKind(obs *c08Obs) string {
 	switch obs.T {
 	case "enc":
@@ -657,10 +756,23 @@ func c08Exec(raw json.RawMessage) Result {
 	}
 	o := ok()
 	if out.bad != nil {
+		if !bytes.Equal(out.bad.HookRec, out.base.HookRec) {
+			kind = "hook-entry" // the hook of the observed call read something else from its *CheckedEntry
+		}
 		o = bad(fmt.Sprintf("C08:history-dependent:%s:%s", kind, out.phase),
 			"the observed call produced different results %s\n  with every pool empty: %s\n  %-22s %s\n%s", out.phase, out.base.text(), out.phase+":", out.bad.text(), out.detail)
 	} else if out.base.Foreign != 0 || out.base.FHooks != 0 {
 		o = bad("C08:history-dependent:"+kind+":foreign-sink", "the observed call reached a sink or hook of another logger: %s", out.base.text())
+	}
+	if o.OK {
+		// the entry a hook (custom or built-in) reads is the entry of its own log call, whatever the hook did before reading it
+		if prefix, fires := c08HookExpect(&op.Obs); fires && (out.base.Hooks != 1 || !bytes.HasPrefix(out.base.HookRec, prefix)) {
+			o = bad("C08:history-dependent:hook-entry:inputs", "the hook of the observed call was handed a CheckedEntry that does not describe that call\n"+
+				"  expected to read (level|logger|message|#fields|…): %q\n  observation: %s", trunc2(prefix), out.base.text())
+		} else if want, applies := c08PanicExpect(&op.Obs); applies && out.base.Panic != want {
+			o = bad("C08:history-dependent:hook-entry:inputs", "the built-in panic hook read another message from its CheckedEntry: want %q\n  observation: %s",
+				want, out.base.text())
+		}
 	}
 	if o.OK && op.Sub {
 		fs, err := c08FirstInProcess(raw, &op)
@@ -701,7 +813,7 @@ func c08OneEncOp(r *Rand, console bool, hostilePct, faults, depth, maxFields int
 
 func c08GenLogger(r *Rand, g *encGen) *c08Logger {
 	l := &c08Logger{Console: r.Chance(2, 5), Caller: r.Chance(1, 2), Stack: Pick(r, []int{99, 99, -1, 0, 2, 2}), Dev: r.Chance(1, 4),
-		Hook: Pick(r, []string{"", "", "panic", "fatal"}), Fields: []encField{}, Fail: r.Chance(1, 6)}
+		Hook: Pick(r, []string{"", "", "panic", "fatal"}), HookDo: Pick(r, []int{0, 1, 1, 2}), Fields: []encField{}, Fail: r.Chance(1, 6)}
 	if r.Chance(1, 3) {
 		l.Fields = g.fields(3)
 	}
@@ -712,7 +824,7 @@ func c08GenLogger(r *Rand, g *encGen) *c08Logger {
 }
 
 func c08GenAct(r *Rand, g *encGen, marker bool) *c08Act {
-	a := &c08Act{A: Pick(r, []string{"log", "log", "log", "dpanic", "panic", "fatal", "checkdrop", "checkwrite", "checkwrite", "sugar", "deep",
+	a := &c08Act{A: Pick(r, []string{"log", "log", "log", "dpanic", "panic", "fatal", "checkdrop", "checkwrite", "checkwrite", "checkafter", "sugar", "deep",
 		"corecheck", "with", "stackfield"}), Lvl: Pick(r, []int{-1, 0, 1, 2, 2}), Fields: g.fields(4), Depth: Pick(r, []int{1, 10, 70, 150, 300})}
 	msg := g.str()
 	if marker {
@@ -784,7 +896,7 @@ func c08Targeted(r *Rand, emit func(op any)) {
 	errsField := encField{F: "errors", Key: str("errs"), Calls: []encCall{}, Errs: []encErrV{e, {O: encOutcome{OK: &ok1}, Causes: []encErrV{}}}}
 	errField := encField{F: "error", Key: str("err"), Calls: []encCall{}, E: &e}
 	openCalls := []encCall{{M: "ns", Key: str("x"), Calls: []encCall{}}, {M: "refl", Key: str("y"), J: &jr, Calls: []encCall{}}, {M: "ns", Key: str("z"), Calls: []encCall{}}}
-	hookLg := &c08Logger{Stack: 0, Caller: true, Hook: "panic", Fields: []encField{}, Fail: true, Name: str("hist")}
+	hookLg := &c08Logger{Stack: 0, Caller: true, Hook: "panic", HookDo: 1, Fields: []encField{}, Fail: true, Name: str("hist")}
 	allCols := &c08Logger{Console: true, Stack: 0, Caller: true, Fields: []encField{nsField}, Name: str("cols")}
 	lg := func(l *c08Logger, a *c08Act) c08Hist { return c08Hist{H: "log", Lg: l, Act: a, Calls: []encCall{}} }
 	dirtiers := [][]c08Hist{
@@ -807,6 +919,13 @@ func c08Targeted(r *Rand, emit func(op any)) {
 		{T: "log", Lg: &c08Logger{Stack: 99, Fields: []encField{}, Fail: true}, Act: act("corecheck", 0, "zvOBS core-level, sink fails")},
 		{T: "log", Lg: &c08Logger{Console: true, Stack: -1, Caller: true, Fields: []encField{}, Name: str("obs")}, Act: act("stackfield", 0, "zvOBS stacks")},
 		{T: "log", Lg: &c08Logger{Caller: true, Stack: 99, Fields: []encField{}}, Act: act("with", 1, "zvOBS with", nsField, reflField)},
+		// hooks that do other work before they read the CheckedEntry they were handed
+		{T: "log", Lg: &c08Logger{Stack: 99, Hook: "fatal", HookDo: 1, Fields: []encField{}, Name: str("app")}, Act: act("fatal", 0, "zvOBS disk full", reflField)},
+		{T: "log", Lg: &c08Logger{Console: true, Stack: 0, Caller: true, Hook: "panic", HookDo: 2, Fields: []encField{nsField}, Name: str("app")},
+			Act: act("panic", 0, "zvOBS invariant broken", errField, reflField)},
+		{T: "log", Lg: &c08Logger{Stack: 99, Dev: true, Hook: "panic", HookDo: 1, Fields: []encField{}}, Act: act("dpanic", 0, "zvOBS dpanic in development")},
+		{T: "log", Lg: &c08Logger{Stack: 99, HookDo: 1, Fields: []encField{}, Name: str("chk")}, Act: act("checkafter", 1, "zvOBS After hook", reflField)},
+		{T: "log", Lg: &c08Logger{Stack: 99, Hook: "fatal", Fields: []encField{}}, Act: act("panic", 0, "zvOBS built-in panic hook")},
 	}
 	for di, d := range dirtiers {
 		for oi, o := range observers {
